@@ -99,7 +99,7 @@ STREAMS = [
     b"20 text/gemini; charset=\r\nabc", b"20 text/plain;charset=\"UTF-8\"\r\nx", b"20 text/gemini\r\n\xff\xfe", b"20 image/png\r\n\x89PNG\r\n\x00",
     b"20 \r\nbody", b"20\r\nbody", b"21 text/plain\r\nbody of a 21", b"25 text/gemini\r\n# twenty-five\n", b"29 application/octet-stream\r\n\x00\x01\x02", b"31 gemini://other.example/\r\nignored body", b"51 Not found\r\n", b"10 Enter a value\r\n", b"60 cert\r\nxx",
     b"99 too high\r\n", b"09 low\r\n", b"xx nonsense\r\n", b"\xff\xfe bad header\r\n", b"no crlf at all", b"", b"2", b"20 text/gemini\r",
-    b"44 slow down\r\n", b"20 text/gemini\r\n" + b"a" * 70000,
+    b"44 slow down\r\n", b"20 text/" + b"a" * 1100 + b"\r\nbody after a long meta", b"51 " + b"n" * 2000 + b"\r\n", b"20 text/gemini\r\n" + b"a" * 70000,
 ]
 
 
